@@ -337,6 +337,8 @@ def run(ctx):
             ctx.count("lloyd_small_runs")
         except Exception as ex:
             ctx.impl_violation(f"{name}: lloyd_relaxation raised {type(ex).__name__}: {ex}", dict(case=name, points=pts.tolist(), steps=steps))
+    core.history_check(ctx, "import numpy as np\nfrom koala import example_graphs as eg, voronization as vz, graph_utils as gu, quasicrystals as qc, phase_diagrams as pdg, hamiltonian as ham\nfrom koala.flux_finder import flux_finder as ff\n\ndef _canon(l):\n    parts = [l.vertices.positions.ravel(), l.edges.indices.ravel().astype(float), l.edges.crossing.ravel().astype(float)]\n    return np.concatenate(parts)\ndef _plaq(l):\n    out = []\n    for p in l.plaquettes:\n        out += [float(len(p.edges))] + [float(x) for x in p.edges] + [float(x) for x in p.directions] + [float(x) for x in p.vertices] + [float(x) for x in p.center]\n    return np.array(out)\n_pts = np.random.default_rng(123).uniform(size=(14, 2))\n", ["_canon(vz.generate_lattice(_pts))", "_canon(vz.generate_lattice(_pts, shift_vertices=False))", "_canon(gu.lloyd_relaxation(vz.generate_lattice(_pts, shift_vertices=False), 2))"],
+                       label="Voronoi call")
     # ---- model
     outs = core.Driver().run_parallel(reqs)
     for (name, l, V), o in zip(meta, outs):
